@@ -106,7 +106,7 @@ impl Property for C02 {
         "C02"
     }
     fn rule(&self) -> String {
-        "Generated: C01 graphs plus 0-8 records per kind from a shared id pool (the same number is a gene, an OMIM and an ORPHA id with different links), 0-5 direct terms each with extra links to ancestors/descendants of an already linked term, repeated facts, records without terms, explicit add_* calls, shuffled call order; every construction path. Oracle: inherited set of a term = records with a direct term equal to it or among its descendants (set union over the model closure), per kind; resolving iterators equal id accessors; each record's hpo_terms = its direct terms only; lookups by id find the right kind only. Deterministic sub-sweep in fresh processes: ontologies of 65 537 - 70 000 terms with 40-300 records per kind through the same oracle. evaluations = term-kind sets + lookups compared. Non-trivial = a record with two direct terms whose upward closures overlap (second link hits terms that already carry it: the early-exit branch); distinct = hash(canonical facts, path).".into()
+        "Generated: C01 graphs plus 0-8 records per kind from a shared id pool (the same number is a gene, an OMIM and an ORPHA id with different links), 0-5 direct terms each with extra links to ancestors/descendants of an already linked term, repeated facts, records without terms, explicit add_* calls, shuffled call order; every construction path. Oracle: inherited set of a term = records with a direct term equal to it or among its descendants (set union over the model closure), per kind; resolving iterators equal id accessors; each record's hpo_terms = its direct terms only; lookups by id find the right kind only. Deterministic sub-sweep in fresh processes: ontologies of 65 537 - 70 000 terms with 40-300 records per kind, and is_a chains of 300 - 5000 links with records at all depths, through the same oracle. evaluations = term-kind sets + lookups compared. Non-trivial = a record with two direct terms whose upward closures overlap (second link hits terms that already carry it: the early-exit branch); distinct = hash(canonical facts, path).".into()
     }
     fn assumptions(&self) -> Vec<String> {
         vec![
@@ -121,7 +121,7 @@ impl Property for C02 {
         }
     }
     fn required_labels(&self, _tier: Tier) -> Vec<&'static str> {
-        vec!["nontrivial", "ancestors>30", "parents>30", "records>255", "same-id-two-kinds", "rec-without-terms", "link-on-term-and-ancestor", "bulk>65535-terms"]
+        vec!["nontrivial", "ancestors>30", "parents>30", "records>255", "same-id-two-kinds", "rec-without-terms", "link-on-term-and-ancestor", "bulk>65535-terms", "depth>255"]
     }
     fn run_generated(&self, tier: Tier, seed: u64, n: u64, stats: &mut Stats) -> Option<(Value, Failure)> {
         let max = if tier == Tier::Quick { 44 } else { 90 };
@@ -139,6 +139,17 @@ impl Property for C02 {
             }
             return Ok(r);
         }
+        if let Some(b) = case.get("deep") {
+            // an is_a chain of `depth` links with records at all depths, through the ordinary check
+            let v: (u32, u32, u32, PathSel) = serde_json::from_value(b.clone()).map_err(|e| e.to_string())?;
+            stats.cases += 1;
+            let c = OntCase { facts: deep_facts(v.0, v.1, v.2), path: v.3, noise: Default::default() };
+            let r = check(&c, stats);
+            if r.is_ok() {
+                stats.label("depth>255");
+            }
+            return Ok(r);
+        }
         replay_typed::<OntCase, _>(case, stats, check)
     }
     fn isolated_plans(&self, tier: Tier, seed: u64) -> Vec<Value> {
@@ -148,6 +159,14 @@ impl Property for C02 {
             plans.push((70_000, mult, 300, PathSel::RoundTrip));
             plans.push((65_537, mult, 60, PathSel::BuilderDefaults));
         }
-        plans.into_iter().map(|p| json!({"bulk": p})).collect()
+        let mut out: Vec<Value> = plans.into_iter().map(|p| json!({"bulk": p})).collect();
+        let mut deep = vec![(300u32, mult, 12u32, PathSel::Builder), (1100, mult, 30, PathSel::Bin(3))];
+        if tier == Tier::Thorough {
+            deep.push((5000, mult, 40, PathSel::RoundTrip));
+            deep.push((300, mult, 12, PathSel::JaxT));
+            deep.push((600, mult, 20, PathSel::Bin(1)));
+        }
+        out.extend(deep.into_iter().map(|p| json!({"deep": p})));
+        out
     }
 }
